@@ -225,12 +225,12 @@ class FieldMappingTransformationBase(DetectionItemTransformation):
             item for mapping in map(self._apply_field_name, rule.fields) for item in mapping
         ]
         if isinstance(rule, SigmaCorrelationRule):
+            # Aliases are fields defined by the correlation rule itself and aren't mapped where they
+            # are used in the grouping list or in the condition.
+            aliases = {alias.alias for alias in rule.aliases}
             if rule.group_by is not None:
-                # first iterate over aliases, map the field names contained in them and keep track
-                # of aliases used later in grouping list and shouldn't be mapped.
-                aliases = set()
+                # first iterate over aliases and map the field names contained in them
                 for alias in rule.aliases:
-                    aliases.add(alias.alias)
                     for rule_reference, field_name in alias.mapping.items():
                         mapped_field_name = self._apply_field_name(field_name)
                         if len(mapped_field_name) > 1:
@@ -259,6 +259,9 @@ class FieldMappingTransformationBase(DetectionItemTransformation):
                 if isinstance(fieldref, list):
                     mapped_fields = []
                     for field in fieldref:
+                        if field in aliases:
+                            mapped_fields.append(field)
+                            continue
                         mapped_field = self._apply_field_name(field)
                         if len(mapped_field) > 1:
                             raise SigmaConfigurationError(
@@ -266,7 +269,7 @@ class FieldMappingTransformationBase(DetectionItemTransformation):
                             )
                         mapped_fields.append(mapped_field[0])
                     rule.condition.fieldref = mapped_fields
-                else:
+                elif fieldref not in aliases:
                     mapped_field = self._apply_field_name(fieldref)
                     if len(mapped_field) > 1:
                         raise SigmaConfigurationError(
